@@ -5,6 +5,7 @@ mod astrt;
 mod codec;
 mod exec;
 mod hints;
+mod mast;
 mod pipeline;
 mod record;
 mod span;
@@ -32,6 +33,7 @@ fn main() {
         "asm-history" => asmhist::asm_history(a(2), a(3)),
         "ast-roundtrip" => astrt::ast_roundtrip(a(2), a(3)),
         "data-roundtrip" => astrt::data_roundtrip(a(2), a(3)),
+        "mast-recipe" => mast::mast_recipe(a(2), a(3)),
         "std-run" => stdrun::std_run(a(2), a(3)),
         "asm-rejects" => asmhist::asm_rejects(a(2), a(3)),
         "iter-walk" => trace::iter_walk(a(2), a(3)),
